@@ -742,6 +742,13 @@ exh:
 			h.Col.Case(true, []byte(fmt.Sprint("cfg", ops)), "reconfiguration-and-failed-start")
 			h.Report("c15.config", c, evalC15Cfg(c))
 		}
+		if h.Shard == 0 {
+			for _, call := range []string{"stop", "restart"} {
+				c := c19Shutdown{Call: call, Bystanders: 2, Before: 1}
+				h.Col.Case(true, []byte(fmt.Sprint("shutdown", c)), "lifecycle-call-from-inside-a-command")
+				h.Report("c15.shutdown", c, evalC15Shutdown(c))
+			}
+		}
 		h.Rapid("config", h.N(40, 2000)/h.NShards+1, func(rt *rapid.T) {
 			var ops []string
 			for i, n := 0, rapid.IntRange(2, 9).Draw(rt, "nops"); i < n; i++ {
